@@ -169,6 +169,82 @@ def readNoInc (sh : Bool) (fs : FS) (cwd : Path) (fuel : Nat) (p : Path) : Res :
     | none => .missing
     | some file => .ok [p] [p] file.comps
 
+/-! ### the caller-visible `already_included` list (follow-up of C08's repair)
+
+`already_included` is a Python list that is mutated in place: a caller that keeps the list sees, after the call, every
+mark made during the read — also when the read FAILED.  `Res` carries the list only on success; the functions below
+compute the same result together with the state of the list when the call ends (`Res × List Path`; lists are kept
+newest-first here, Python appends).  `rm` is the shape of the two entry points: `false` = the marks of a failed read
+stay in the list, `true` = `fixes/C08-already-included-restored.patch`: `n_marked = len(already_included)` at entry and
+`except BaseException: del already_included[n_marked:]; raise` around the read. -/
+
+def Res.isOk : Res → Bool
+  | .ok .. => true
+  | _ => false
+
+/-- `step`, with the list as it is when the iteration ends -/
+def stepT (sh : Bool) (fs : FS) (cwd base : Path) (rec : Path → List Path → Res × List Path)
+    (acc : Res × List Path) (href : List String) : Res × List Path :=
+  match acc.1 with
+  | .ok al log doc =>
+    let loc := resolveHref fs cwd base href
+    if loc ∈ al then (.ok al log doc, al) else
+      match kindOf loc with
+      | .other => (.badExt, al)
+      | .h5 =>
+        if sh then
+          match rec loc (loc :: al) with
+          | (.ok al' sl sub, _) => (.ok al' (log ++ sl) (addAll sub doc), al')
+          | r => r
+        else
+          -- the HDF5 parser works on a list of its own; `loc` is appended only after the load returned
+          match rec loc [] with
+          | (.ok _ sl sub, _) => (.ok (loc :: al) (log ++ sl) (addAll sub doc), loc :: al)
+          | (r, _) => (r, al)
+      | .xml =>
+        match rec loc (loc :: al) with
+        | (.ok al' sl sub, _) => (.ok al' (log ++ sl) (addAll sub doc), al')
+        | r => r
+  | _ => acc
+
+/-- `visit`, with the list as it is when the call ends.  An included XML file is read through
+    `read_neuroml2_file`, which (`rm = true`) takes back the marks made below it when its read fails. -/
+def visitT (rm sh : Bool) (fs : FS) (cwd : Path) : Nat → Path → List Path → Res × List Path
+  | 0, _, al => (.outOfFuel, al)
+  | f+1, p, al =>
+    match fs p with
+    | none => (.missing, al)
+    | some file =>
+      let r := file.hrefs.foldl (stepT sh fs cwd p.dropLast (visitT rm sh fs cwd f)) (.ok al [p] file.comps, al)
+      if r.1.isOk then r else if rm then (r.1, al) else r
+
+/-- `read_neuroml2_file(p, include_includes=True, already_included=al0)` with a list the caller keeps:
+    the result and the caller's list after the call. -/
+def readFileKept (rm sh : Bool) (fs : FS) (cwd : Path) (fuel : Nat) (p : Path) (al0 : List Path) :
+    Res × List Path :=
+  match fs p with
+  | none => (.missing, al0)                       -- `sys.exit()` before anything is marked
+  | some _ =>
+    let al1 := if p ∈ al0 then al0 else p :: al0
+    let r : Res × List Path :=
+      if entryIsH5 p then
+        if sh then
+          match visitT rm sh fs cwd fuel p al1 with
+          | (.ok al log doc, _) => (.ok al log (addAll doc []), al)
+          | r => r
+        else
+          match visitT rm sh fs cwd fuel p [] with
+          | (.ok _ log doc, _) => (.ok al1 log (addAll doc []), al1)
+          | (r, _) => (r, al1)
+      else visitT rm sh fs cwd fuel p al1
+    if r.1.isOk then r else if rm then (r.1, al0) else r
+
+/-- `read_neuroml2_string(text, include_includes=True, base_path=base, already_included=al0)` -/
+def readStringKept (rm sh : Bool) (fs : FS) (cwd base : Path) (fuel : Nat) (hrefs : List (List String))
+    (comps : List Comp) (al0 : List Path) : Res × List Path :=
+  let r := hrefs.foldl (stepT sh fs cwd base (visitT rm sh fs cwd fuel)) (.ok al0 [] comps, al0)
+  if r.1.isOk then r else if rm then (r.1, al0) else r
+
 /-! ### the loop as it was before the repair 5bb970b (kept to document the defect) -/
 
 def stepOld (fs : FS) (cwd base : Path) (rec : Path → List Path → Res) (acc : Res) (href : List String) : Res :=
